@@ -258,6 +258,18 @@ def compare(c, impl, model):
     return None
 
 
+_ODD_PLAIN = None
+
+
+def _odd_plain_names(c):
+    global _ODD_PLAIN
+    import re
+    if _ODD_PLAIN is None:
+        _ODD_PLAIN = re.compile(r'(?m)(^\s*(- )?|[\[{,]\s*)(1|007|true|null|0x10|1e3|no|1\.5|-3|Yes)\s*(:|,|\]|$)')
+    return c[5] == "render" and any(ext in ("yaml", "yml") and _ODD_PLAIN.search(text if isinstance(text, str) else bytes(text).decode("utf-8", "replace"))
+                                    for ext, text in c[2])
+
+
 def extra_checks(ctx, cases, impl_lines, model_lines):
     from gen import xcheck
     return (xcheck.concurrent_reconfig(ctx, "routing under concurrent reconfiguration", levels=True, plain=False)
@@ -266,4 +278,8 @@ def extra_checks(ctx, cases, impl_lines, model_lines):
             # when the file was replaced by a version with an OLDER modification time (rollback, cp -p, rename of a
             # staged file) or through a re-pointed symbolic link: C15's reloader histories with that action
             + xcheck.borrow(ctx, "C15", "records are routed by the configuration the file on disk declares",
-                            lambda c: c[0] in (3, 6) and 13 in c[5], n=40))
+                            lambda c: c[0] in (3, 6) and 13 in c[5], n=40)
+            # ... and a record reaches the appenders its logger chain NAMES in the document, whatever the names read like:
+            # appenders called 1, 007, true, null, 0x10, -3 written as plain YAML scalars (the names are strings)
+            + xcheck.borrow(ctx, "C14", "routing to appenders whose names read like numbers or YAML keywords",
+                            _odd_plain_names, n=60, seed_salt=67))
